@@ -148,6 +148,12 @@ RDCases == {
   [doc |-> "{\"minLength\":2.0}", norm |-> "{\"minLength\":2}"],
   [doc |-> "{\"maxItems\":3.0,\"minItems\":0}", norm |-> "{\"maxItems\":3,\"minItems\":0}"],
   [doc |-> "{\"minimum\":1e2}", norm |-> "{\"minimum\":100}"],
+  [doc |-> "{\"maxLength\":10.0}", norm |-> "{\"maxLength\":10}"],
+  [doc |-> "{\"minItems\":100.0,\"maxItems\":100.00}", norm |-> "{\"minItems\":100,\"maxItems\":100}"],
+  [doc |-> "{\"properties\":{\"a\":{\"maxProperties\":20.00,\"minProperties\":0.0}}}", norm |-> "{\"properties\":{\"a\":{\"maxProperties\":20,\"minProperties\":0}}}"],
+  \* (an integer keyword spelled 1e1 - exponent, no point - is REFUSED by Unmarshal: outside "documents Unmarshal accepts")
+  [doc |-> "{\"minContains\":10.0e0,\"maxContains\":1.0e1,\"contains\":{}}", norm |-> "{\"minContains\":10,\"maxContains\":10,\"contains\":true}"],
+  [doc |-> "{\"minLength\":1000,\"maxLength\":1010.0}", norm |-> "{\"minLength\":1000,\"maxLength\":1010}"],
   [doc |-> "{\"multipleOf\":0.5}", norm |-> "{\"multipleOf\":0.5}"],
   [doc |-> "{\"items\":{}}", norm |-> "{\"items\":true}"],
   [doc |-> "{\"items\":[{},false]}", norm |-> "{\"items\":[true,false]}"],
